@@ -84,6 +84,7 @@ def main():
                     problems += ["forbidden token: " + h for h in hits]
                 if tier == "thorough":
                     problems += C.leanchecker(P.LEAN_TARGETS)
+                problems += C.lock_drift()
                 if getattr(P, "PANIC_FILES", None):
                     d = C.panic_site_diff(P.PANIC_FILES)
                     if d:
@@ -106,8 +107,15 @@ def main():
         impl = run_cases([case], "impl")[0]
         model = run_cases([case], "model")[0] if exe_ok and not case.get("impl_only") else None
         why = P.oracle(case, impl)
-        print(json.dumps({"case": case, "impl": impl, "model": model, "property_failure": why}, indent=1))
-        return 1 if why else 0
+        tie = None
+        if model is not None:
+            if hasattr(P, "tie_check"):
+                tie = P.tie_check(case, impl, model)
+            else:
+                cn = getattr(P, "canon", lambda c, r: r)
+                tie = None if cn(case, impl) == cn(case, model) else "model and implementation replies differ"
+        print(json.dumps({"case": case, "impl": impl, "model": model, "property_failure": why, "tie_disagreement": tie}, indent=1))
+        return 1 if (why or tie) else 0
 
     # ---- 2. cases: corpus first, then generated
     cases = []
@@ -131,11 +139,14 @@ def main():
 
     disagreements, failures = [], []
     canon = getattr(P, "canon", lambda case, reply: reply)
-    rejects = 0
+    rejects, rejected_cases = 0, []
     for c, r in zip(cases, impl):
-        if r == "timeout" and not c.get("time_observable"):
-            # solver / generator time-out: a rejected case, never a disagreement (DESIGN 3)
+        if r == "timeout" and not c.get("time_observable") and c.get("exe") == "analyze":
+            # a solver time-out of the analysis pipeline: a rejected case, not a disagreement (DESIGN 3) — up to a small
+            # allowance, checked below.  The core harness (assembler, disassembler, separator, annotator, hex adapters)
+            # has no business taking seconds: there a request without an answer goes on to the tie and the oracle.
             rejects += 1
+            rejected_cases.append(c)
             continue
         if not c.get("impl_only"):
             m = model.get(id(c))
@@ -146,8 +157,16 @@ def main():
             elif m is None or canon(c, r) != canon(c, m):
                 disagreements.append({"case": c, "impl": r, "model": m})
         why = P.oracle(c, r)
+        if not why and r in ("timeout", "abort") and c.get("exe") != "analyze":
+            why = f"the implementation gave no answer ({r}) on this input"
         if why:
             failures.append({"case": c, "impl": r, "why": why})
+    n_analyze = sum(1 for c in cases if c.get("exe") == "analyze")
+    allowed = max(2, n_analyze // 50)
+    if rejects > allowed:
+        failures.append({"case": rejected_cases[0], "impl": "timeout",
+                         "why": f"the analysis pipeline gave no answer within the time limit on {rejects} of {n_analyze} cases "
+                                f"(at most {allowed} solver time-outs are tolerated); first such input attached"})
 
     # ---- 3. known findings (replayed on the implementation; never written at run time)
     known = [k for k in C.known_findings(pid) if k.get("status") == "finding"]
@@ -161,6 +180,10 @@ def main():
         if k is None:
             # a finding about a CALL SITE rather than one input: the oracle marks the failures it explains
             k = next((x for x in known if x.get("why_prefix") and f["why"].startswith(x["why_prefix"])), None)
+        if k is not None and k.get("why_prefix") and not f["why"].startswith(k["why_prefix"]):
+            k = None          # the corpus input of a finding now fails for a DIFFERENT reason: a new violation
+        if k is not None and k.get("reply_prefix") and not (f["impl"] or "").startswith(k["reply_prefix"]):
+            k = None          # … or in a different way (e.g. a panic where the finding is a time-out)
         if k is not None:
             known_hit.append((k, f))
         else:
